@@ -203,9 +203,9 @@ def tlc(module, cfg_text, name, workers=None, trace=None, timeout=1800, simulate
     m = re.search(r"Invariant (\S+) is violated", out)
     if m:
         r["violated"] = m.group(1)
-    m = re.search(r"Temporal properties were violated|property (\S+) is violated", out)
+    m = re.search(r"Temporal property (\S+) was violated|Temporal properties were violated|property (\S+) is violated", out)
     if m and not r["violated"]:
-        r["violated"] = m.group(1) or "temporal"
+        r["violated"] = m.group(1) or m.group(2) or "temporal"
     if "Deadlock reached" in out and not r["violated"]:
         r["violated"] = "deadlock"
     r["post_failed"] = "Checking POSTCONDITION" in out and ("is violated" in out or "evaluated to FALSE" in out or "was violated" in out)
@@ -237,10 +237,56 @@ def unjson(s):
     return json.loads(s.replace('\\"', '"').replace("\\\\", "\\"))
 
 
+# bin/selftest.py sets VERIF_SELFTEST=<module>:<flip|drop> to show that the binding is real: one
+# recorded field is corrupted (or one event removed) before validation and the check must report it.
+SELFTEST_FLIP = {
+    "ContentPackTrace": ("Get", lambda e: e.update(cid=e["cid"] + 1) if e["res"] == "match" else None),
+    "EntryStoreTrace": ("Index", lambda e: e.update(count=e["count"] + 1)),
+    "EntryOrderTrace": ("Find", lambda e: e.update(res=e["res"] + 1) if e["res"] >= 0 else None),
+    "ClusterPipelineTrace": ("Seg", lambda e: e.update(tail=e["tail"] + 1)),
+    "PackagingTrace": ("DumpDiff", lambda e: e.update(n=e["n"] + 1)),
+    "ViewsTrace": ("Root", lambda e: e.update(size=e["size"] + 1)),
+    "IntegrityTrace": ("Case", lambda e: e.update(check="true", coveredChecks=["true"] * len(e["coveredChecks"]), nDiffStruct=1, open="panic") if e["covered"] else None),
+    "AtomicCreateTrace": ("After", lambda e: e.update(classes=["other"] + e["classes"][1:])),
+    "DecoderTrace": ("Publish", lambda e: e.update(a=e["a"] + 1000000)),
+    "Layout": ("Ptr", lambda e: e.update(offset=e["offset"] + 1)),
+}
+SELFTEST_DROP = {"ContentPackTrace": "Add", "EntryStoreTrace": "Entry", "EntryOrderTrace": "Entry", "ClusterPipelineTrace": "NewCluster",
+                 "PackagingTrace": "Fs", "ViewsTrace": "Step", "IntegrityTrace": None, "AtomicCreateTrace": "Rename", "DecoderTrace": "Buf", "Layout": "Block"}
+
+
+def selftest_corrupt(module, events):
+    st = os.environ.get("VERIF_SELFTEST", "")
+    if not st or not st.startswith(module + ":") or not events:
+        return events
+    mode = st.split(":")[1]
+    import copy
+    evs = copy.deepcopy(events)
+    start = len(evs) // 3
+    order = list(range(start, len(evs))) + list(range(0, start))
+    if mode == "flip":
+        kind, f = SELFTEST_FLIP[module]
+        for i in order:
+            if evs[i]["ev"] == kind:
+                before = json.dumps(evs[i], sort_keys=True)
+                f(evs[i])
+                if json.dumps(evs[i], sort_keys=True) != before:
+                    log("[selftest] corrupted event %d of %s: %s" % (i, module, kind))
+                    return evs
+    elif mode == "drop" and SELFTEST_DROP.get(module):
+        for i in order:
+            if evs[i]["ev"] == SELFTEST_DROP[module]:
+                log("[selftest] dropped event %d of %s: %s" % (i, module, evs[i]["ev"]))
+                del evs[i]
+                return evs
+    return evs
+
+
 def validate_trace(module, cfg_text, name, events, timeout=900):
     """Write `events` as NDJSON, run the trace specification. Returns dict:
     accepted, matched (number of events consumed), rejected_event, drift, states."""
     ensure_work()
+    events = selftest_corrupt(module, events)
     tdir = os.path.join(WORK, "traces")
     os.makedirs(tdir, exist_ok=True)
     tf = os.path.join(tdir, name + ".ndjson")
